@@ -1014,7 +1014,7 @@ package gojq
 // (xs[j] == runeAt(s, j)) and funcImplode (r == impl(xs, len(xs))).
 //@ pred wellFormed(s string) = forall k :: {ridx(s, k)} 0 <= k && k < rcount(s) ==> runestr(rdecode(s, ridx(s, k))) == s[ridx(s, k):ridx(s, k+1)]
 // consequence of toInt's verified contract (for an int argument the result is the argument and is toIntP)
-//@ axiom toIntP_int: forall x any :: {toIntP(x)} (x is int) ==> toIntP(x) == x.(int)
+//@ axiom toIntP_int: forall x any :: {toIntRaw(x, 0)} (x is int) ==> toIntRaw(x, 0) == x.(int)
 //@ lemma implode_explode(s string, xs []any, k int)
 //@   property C13
 //@   using impl_zero impl_step toIntP_int
